@@ -78,4 +78,35 @@ PROPS["C13"] = {
     "rule": "layer/permutation requests on all-max, half-ones, non-canonical, boundary, canonical and mixed states; sponge for every length 0..40 and longer; random challenger histories (native) and in-circuit challenger histories through witness generation; distinct = distinct request lines",
 }
 
+def judge_c12(d):
+    a, b = d["impl"], d["model"]
+    rq = d["request"]
+    if rq.startswith("c12 verify"):
+        return f"verification verdict of the implementation ({a}) differs from the Merkle model ({b}): a proof/leaf/position/cap combination is accepted or rejected wrongly"
+    if rq.startswith("c12 tree"):
+        pa, pb = a.split("|"), b.split("|")
+        if len(pa) == 3 and len(pb) == 3 and pa[0].split() != pb[0].split():
+            return "the cap differs from hashing the leaves pairwise level by level"
+        if len(pa) == 3 and len(pb) == 3 and pa[2].split() != pb[2].split():
+            return "a membership proof differs from the siblings of the committed path"
+    return None
+
+
+PROPS["C12"] = {
+    "lean_modules": ["P2.Props.C12"],
+    "audit_module": "P2.Audit.C12",
+    "harness_prop": "c12",
+    "profile": "release",
+    "judge": judge_c12,
+    "trusted_base": KERNEL_TB + [
+        "modelled, not verified: merkle_tree.rs / merkle_proofs.rs control flow transcribed by hand (P2/Model/Merkle.lean), rayon joins as sequential recursion, MaybeUninit buffers as lists",
+        "hash functions are parameters of the theorems; collision-freeness appears only as an explicit disjunct (a returned collision witness)",
+        "thread schedules: runtime fact, exercised with rayon pools of 1/2/16 threads (partial); Keccak hasher and batch trees not modelled yet (partial)",
+    ],
+    "level_text": "Lean 4 theorems for every tree height, cap height, position and abstract hasher: binding of verification (two accepted openings at one position of one cap entry coincide or exhibit an explicit hash collision), completeness of prove/verify and cap = level-by-level hashing on the model; model tied to MerkleTree::new / prove / verify_merkle_proof_to_cap by correspondence incl. negative requests and panics",
+    "level_note": "Trusted: Lean kernel, standard axioms, hand transcription tied by differential correspondence (digest buffer layout, caps, proofs, verdict classes OK/ERR/PANIC). Thread interleavings of the MaybeUninit fill cannot be exhibited by the model (partial).",
+    "assumptions": [],
+    "rule": "trees for k=0..6 (thorough 9), every cap height, widths shorter/longer than a digest, all or sampled positions, 8 negative request classes per position; distinct = distinct request lines",
+}
+
 NOT_CLAIMED = {}
